@@ -400,6 +400,67 @@ def gen_fun_check(m, roots, roots_data, arg_paths, values, obs):
     return res
 
 
+def pickle_check(m, roots_data, followups):
+    """C12 oracle on managers with nested targets: the unpickled manager has the same definitions, the same
+    indices WITH multiplicities, passes verify, reacts identically to follow-up assignments, and shares nothing."""
+    import pickle
+    problems = []
+
+    def counts(mm):
+        return {name: {f"{k} -> {k2}": n for k, rc in getattr(mm, name).items() for k2, n in rc.items()}
+                for name in ("rdeps", "rtasks", "deptasks", "tartasks")}
+
+    def store(mm):
+        st = []
+        for label, r in mm.containers.items():
+            flatten(r._owner, [label], st)
+        return st
+    try:
+        m2 = pickle.loads(pickle.dumps(m))
+    except RecursionError:
+        return {"problems": ["pickle round trip raised RecursionError"]}
+    except Exception as e:
+        return {"problems": [f"pickle round trip raised {type(e).__name__}: {e}"[:200]]}
+    if m2.dump() != m.dump():
+        problems.append("dump() differs")
+    c1, c2 = counts(m), counts(m2)
+    if c1 != c2:
+        diff = [(n, k, c1[n].get(k), c2[n].get(k)) for n in c1 for k in set(c1[n]) | set(c2[n]) if c1[n].get(k) != c2[n].get(k)]
+        problems.append(f"dependency indices differ (index, entry, original count, restored count): {sorted(diff)[:3]}")
+    try:
+        m2.verify()
+    except Exception as e:
+        problems.append(f"verify() of the restored manager raised {type(e).__name__}")
+    if store(m2) != store(m):
+        problems.append("restored container contents differ")
+    roots2 = dict(m2.containers)
+    roots1 = dict(m.containers)
+    for p, v in followups:
+        before2 = store(m2)
+        e1 = e2 = None
+        try:
+            m.set_value(mkref(roots1, p), v)
+        except Exception as e:
+            e1 = exc_name(e)
+        if store(m2) != before2:
+            problems.append("an assignment to the original changed the copy"); break
+        try:
+            m2.set_value(mkref(roots2, p), v)
+        except Exception as e:
+            e2 = exc_name(e)
+        if e1 != e2:
+            problems.append(f"follow-up {p} raised differently: {e1} vs {e2}"); break
+        if store(m) != store(m2):
+            problems.append(f"after the same follow-up {p}={v} the containers differ"); break
+        if counts(m) != counts(m2):
+            problems.append(f"after the same follow-up {p}={v} the dependency indices differ"); break
+    try:
+        m.verify(); m2.verify()
+    except Exception as e:
+        problems.append(f"verify() after the follow-up raised {type(e).__name__}: {str(e)[:100]}")
+    return {"problems": problems}
+
+
 def fresh_check(m, roots, roots_data, leaves, followups):
     """C03 oracle: a fresh manager holding only the surviving definitions answers
     every query and reacts to later assignments like the one with the history."""
@@ -523,6 +584,8 @@ def run_case(case, opts):
                 m.verify()
             elif kind == "cleanup":
                 m.cleanup()
+            elif kind == "picklecheck":
+                obs["pickle"] = pickle_check(m, roots_data, op[1])
             elif kind == "setattr_raw":
                 setattr(mkref(roots, op[1]), op[2], op[3])
             elif kind == "genfun":
